@@ -97,7 +97,7 @@ func diffSnap(a, b map[string]fileInfo, mtime bool) string {
 
 // TestDeterminism: k fresh processes per design must write the same files with the same bytes.
 // fixedDesigns take the place of the first generated designs of TestDeterminism.
-var fixedDesigns = []func() *m.Design{gen.MapKeyMatrix, gen.KindMatrix, gen.StreamMatrix, gen.GRPCStreamMatrix}
+var fixedDesigns = []func() *m.Design{gen.MapKeyMatrix, gen.KindMatrix, gen.StreamMatrix, gen.GRPCStreamMatrix, gen.RespCookieMatrix}
 
 func TestDeterminism(t *testing.T) {
 	n := rt.EnvInt("VERIF_CHECKS", 16)
